@@ -37,15 +37,16 @@ const (
 
 // Program is the loaded, type-checked repository in SSA form.
 type Program struct {
-	Repo     string
-	Fset     *token.FileSet
-	Pkgs     []*packages.Package // all repository packages (module-local)
-	AllPkgs  map[string]*packages.Package
-	SSA      *ssa.Program
-	SSAPkgs  map[string]*ssa.Package
-	cg       *callgraph.Graph
-	allFuncs map[*ssa.Function]bool
-	GOARCH   string
+	Repo      string
+	Fset      *token.FileSet
+	Pkgs      []*packages.Package // all repository packages (module-local)
+	AllPkgs   map[string]*packages.Package
+	SSA       *ssa.Program
+	SSAPkgs   map[string]*ssa.Package
+	cg        *callgraph.Graph
+	allFuncs  map[*ssa.Function]bool
+	GOARCH    string
+	execNames map[*ssa.Function]string
 }
 
 // loadProgram loads ./... of repo and builds SSA for the whole program.
@@ -126,11 +127,16 @@ func inRepo(fn *ssa.Function) bool {
 // inProd reports whether fn is in a production package of the repository (not redistest).
 func inProd(fn *ssa.Function) bool {
 	pk := fnPkgPath(fn)
-	return strings.HasPrefix(pk, modPath) && !strings.HasPrefix(pk, pkgTest)
+	return pkgHasPrefix(pk, modPath) && !pkgHasPrefix(pk, pkgTest)
 }
 
 func inFramework(fn *ssa.Function) bool {
-	return strings.HasPrefix(fnPkgPath(fn), pkgRedis)
+	return pkgHasPrefix(fnPkgPath(fn), pkgRedis)
+}
+
+// pkgHasPrefix: path is the package prefix itself or below it (path-component-wise).
+func pkgHasPrefix(path, prefix string) bool {
+	return path == prefix || strings.HasPrefix(path, prefix+"/")
 }
 
 func fnPkgPath(fn *ssa.Function) string {
@@ -159,7 +165,7 @@ func (p *Program) RepoFuncs(prefix string) []*ssa.Function {
 		if fn.Blocks == nil || fn.Synthetic != "" {
 			continue
 		}
-		if strings.HasPrefix(fnPkgPath(fn), prefix) {
+		if pkgHasPrefix(fnPkgPath(fn), prefix) {
 			out = append(out, fn)
 		}
 	}
@@ -177,6 +183,37 @@ func fnName(fn *ssa.Function) string {
 	s = strings.ReplaceAll(s, modPath+"/redis/", "")
 	s = strings.ReplaceAll(s, modPath+"/", "")
 	return s
+}
+
+// key renders a function for use in obligation keys: executor closures are named after the
+// command they are registered under (stable when executors are added or reordered); closures
+// nested in them get a $n suffix relative to the executor.
+func (p *Program) key(fn *ssa.Function) string {
+	if fn == nil {
+		return "<nil>"
+	}
+	if p.execNames == nil {
+		p.execNames = map[*ssa.Function]string{}
+		list, _ := p.executors()
+		for _, e := range list {
+			if _, dup := p.execNames[e.Fn]; !dup {
+				p.execNames[e.Fn] = "executor:" + e.Name
+			}
+		}
+	}
+	if n, ok := p.execNames[fn]; ok {
+		return n
+	}
+	if par := fn.Parent(); par != nil {
+		if _, ok := p.execNames[par]; ok {
+			for i, a := range par.AnonFuncs {
+				if a == fn {
+					return fmt.Sprintf("%s$%d", p.execNames[par], i+1)
+				}
+			}
+		}
+	}
+	return fnName(fn)
 }
 
 // Func finds a function by its short name (as rendered by fnName); nil when absent.
